@@ -350,10 +350,16 @@ func calcStatusCode(cfg *ResponseConfig, a *asset, segmentPart string, nowMS int
 		// Next we need to find the number after wrap
 		// For that we need to find the first segment nr after wrapStart
 		// Use nowMS = cycleStart to look up the latest segment published at that time
-		firstNr := 0
+		// Segment numbers include the configured start number, and the cycle start is relative
+		// to availabilityStartTime.
+		startNr := cfg.getStartNr()
+		firstNr := startNr
 		if nrWraps > 0 {
-			lastNr := findLastSegNr(cfg, a, wrapStartS*1000, segMeta.rep)
-			firstNr = lastNr + 1
+			lastNr := findLastSegNr(cfg, a, (cfg.StartTimeS+wrapStartS)*1000, segMeta.rep)
+			firstNr = startNr + lastNr + 1
+			if firstNr < startNr { // no segment finished before the cycle start
+				firstNr = startNr
+			}
 		}
 		segTime := findSegStartTime(a, cfg, firstNr, segMeta.rep)
 		if segTime < wrapStartS*repTimescale {
